@@ -13,21 +13,43 @@ func init() { register("C16", checkC16) }
 type acsSite struct {
 	val  ssa.Value
 	pred *ssa.BasicBlock
+	via  *ssa.Call // the call of a helper that hands both results up (`return lowestIndexEndpoint(list)`), nil in the function itself
 }
 
-// phiSites: the non-phi values (with the block they arrive from) that can reach v through phis.
+// phiSites: the non-phi values (with the block they arrive from) that can reach v through phis. A value that is
+// result #i of a helper of the same package returning the (URL, binding) pair is replaced by the sites of the helper's
+// own result #i: a stage of the selection that moved into a function of its own is still a stage.
 func phiSites(v ssa.Value, from *ssa.BasicBlock, seen map[ssa.Value]bool, out *[]acsSite) {
+	phiSitesVia(v, from, seen, out, nil, 0)
+}
+
+func phiSitesVia(v ssa.Value, from *ssa.BasicBlock, seen map[ssa.Value]bool, out *[]acsSite, via *ssa.Call, depth int) {
 	if phi, ok := v.(*ssa.Phi); ok {
 		if seen[phi] {
 			return
 		}
 		seen[phi] = true
 		for i, e := range phi.Edges {
-			phiSites(e, phi.Block().Preds[i], seen, out)
+			phiSitesVia(e, phi.Block().Preds[i], seen, out, via, depth)
 		}
 		return
 	}
-	*out = append(*out, acsSite{v, from})
+	if ex, ok := v.(*ssa.Extract); ok && depth < 2 && via == nil {
+		if c, isC := ex.Tuple.(*ssa.Call); isC && !c.Call.IsInvoke() {
+			if h := calleeOf(c); h != nil && h.Blocks != nil && h.Parent() == nil && c.Parent() != nil && h.Pkg == c.Parent().Pkg && h != c.Parent() {
+				res := h.Signature.Results()
+				if res.Len() == 2 && isStringType(res.At(0).Type()) && isStringType(res.At(1).Type()) {
+					for _, ret := range returnsOf(h) {
+						if ex.Index < len(ret.Results) {
+							phiSitesVia(ret.Results[ex.Index], ret.Block(), seen, out, c, depth+1)
+						}
+					}
+					return
+				}
+			}
+		}
+	}
+	*out = append(*out, acsSite{v, from, via})
 }
 
 // elemBaseOf: if v is a load of field `field` of a range element (a local copy or the slot itself), the
@@ -178,12 +200,31 @@ func checkC16(cx *Ctx, r *Report) {
 		// guards on every path to the assigning block
 		fx.loopPaths = true // the selection loops carry state (candidate, flags) from one iteration to the next
 		pts, ok := fx.atomPathsTo(s.pred, 8192)
+		if ok && s.via != nil {
+			// the way to the helper's call comes first
+			outer, okO := fx.atomPathsTo(s.via.Block(), 8192)
+			ok = okO && len(outer)*len(pts) <= 8192
+			if ok {
+				var comb []APath
+				for _, o := range outer {
+					for _, p := range pts {
+						q := APath{Ret: p.Ret}
+						q.Blocks = append(append([]*ssa.BasicBlock{}, o.Blocks...), p.Blocks...)
+						q.Conds = append(append([]condPol{}, o.Conds...), p.Conds...)
+						q.Raw = append(append([]condPol{}, o.Raw...), p.Raw...)
+						q.Atoms = append(append([]Atom{}, o.Atoms...), p.Atoms...)
+						comb = append(comb, q)
+					}
+				}
+				pts = comb
+			}
+		}
 		fx.loopPaths = false
 		if !ok || len(pts) == 0 {
 			r.Undecided("R-SELECT", key+":guard", w.InstrPos(slot0), "paths to the assignment not enumerable")
 			continue
 		}
-		inCycle := fx.info(fn).reachable(s.pred, s.pred)
+		inCycle := fx.info(s.pred.Parent()).reachable(s.pred, s.pred)
 		stage := 0
 		bad := ""
 		sawFirstCandidate := false
@@ -275,7 +316,7 @@ func checkC16(cx *Ctx, r *Report) {
 					continue
 				}
 				onlyThat := true
-				fi := fx.info(fn)
+				fi := fx.info(s.pred.Parent())
 				for _, cp := range p.Conds {
 					in, isIn := cp.Cond.(ssa.Instruction)
 					if !isIn || cp.Cond == a.Cond {
@@ -364,8 +405,18 @@ func checkC16(cx *Ctx, r *Report) {
 		r.Check(have[st], "R-SELECT", fmt.Sprintf("stage-%d-exists", st), w.FnPos(fn), "stage '"+name+"' present", "the selection has no '"+name+"' stage any more")
 	}
 	// stage 3 only when stage 2 found nothing: every path to a stage-3 block avoids all stage-2 blocks, or passes a false 'default found' flag
+	viaOf := map[*ssa.BasicBlock]*ssa.Call{}
+	for _, i := range infos {
+		if i.s.via != nil {
+			viaOf[i.s.pred] = i.s.via
+		}
+	}
 	for _, b3 := range stage3Blocks {
 		pts, _ := fx.atomPathsTo(b3, 8192)
+		if v := viaOf[b3]; v != nil {
+			o, _ := fx.atomPathsTo(v.Block(), 8192)
+			pts = append(pts, o...)
+		}
 		bad := ""
 		for _, p := range pts {
 			for _, b2 := range stage2Blocks {
